@@ -20,7 +20,7 @@ FILEMAP = {
     "labels.go": ["C19", "C03"],
     "defaults.go": ["C19", "C03", "C09", "C01"],
     "dnsutil/util.go": ["C19"],
-    "types.go": ["C05", "C01", "C16"],
+    "types.go": ["C05", "C01", "C16", "C08"],
     "duplicate.go": ["C20"],
     "zduplicate.go": ["C20"],
     "sanitize.go": ["C20"],
@@ -169,6 +169,8 @@ def main():
     ap.add_argument("--seed", default="1")
     ap.add_argument("--out", default=os.path.join(HERE, "automut.results.jsonl"))
     ap.add_argument("--list", action="store_true")
+    ap.add_argument("--only", help="comma-separated mutant ids to (re)run even if already in the results file")
+    ap.add_argument("--props", help="comma-separated properties to run instead of the file's mapping")
     a = ap.parse_args()
     files = a.files.split(",") if a.files else list(FILEMAP)
     done = set()
@@ -182,13 +184,13 @@ def main():
     for f in files:
         ss = list(sites(f))
         # deterministic spread over the file
-        if len(ss) > a.max_per_file:
+        if len(ss) > a.max_per_file and not a.only:
             step = len(ss) / a.max_per_file
             ss = [ss[int(k * step)] for k in range(a.max_per_file)]
         for (ln, op, new) in ss:
             mid = "%s:%d:%s" % (f, ln + 1, op)
-            if mid not in done:
-                todo.append((f, ln, op, new, FILEMAP[f]))
+            if (a.only and mid in a.only.split(",")) or (not a.only and mid not in done):
+                todo.append((f, ln, op, new, a.props.split(",") if a.props else FILEMAP[f]))
     print("%d mutants to run (%d already done)" % (len(todo), len(done)))
     if a.list:
         for t in todo:
